@@ -206,7 +206,16 @@ fn spec_inner(property: &str, tier: &str) -> Option<CheckSpec> {
 				"grin_chain Segmenter, Desegmenter (add/apply/next_desired/check_progress/validate_complete_state), txhashset_read/txhashset_write, Chain on tmpfs".into(),
 				"grin_core Segment / SegmentProof / BitmapSegment (de)serialization and validation".into(),
 			];
-			sp.stub_components = vec!["servers::StateSync loop and NetToChainAdapter::receive_*_segment (mirrored in the harness)".into(), "p2p transport (simulated: reorder/duplicate/drop/corrupt)".into()];
+			sp.stub_components = vec![
+				"servers::StateSync loop (mirrored in the harness: apply_next_segments, check_progress, next_desired_segments, request, completion calls)".into(),
+				"typed-delivery runs: NetToChainAdapter::receive_*_segment and the p2p transport (simulated: reorder/duplicate/drop/corrupt one element)".into(),
+				"wire runs: only the wire itself (the simulator relays frames between the two nodes' sockets and may lose, duplicate, delay or corrupt them)".into(),
+			];
+			sp.engine = "pibdsim+netsim".to_string();
+			sp.rule.push_str(". Per world (except the compacted and the 1000-output worlds, whose default-height segments exceed the 62 KB frame limit that AutomatedTesting's block weight implies) two further runs between two real nodes with their complete p2p stacks (E11 netsim), the simulator being the wire: the receiver gets its headers as Headers messages in HeaderSync status, its requests leave through the real Peer::send_*_segment_request of its outbound connection, reach the serving node's real Protocol / NetToChainAdapter::get_*_segment / Segmenter, and the answers come back into the receiver's real Protocol / receive_*_segment / Desegmenter; one run is fault free, in the other the wire loses requests and answers, duplicates, delays (reorders) and flips one byte of answers for 40 rounds (a frame the receiver cannot decode makes it hang up; the peer dials again). Oracle: completion within 80 fault-free rounds, validate_complete_state, then head/roots/sizes/unspent set/validate(false) equal to a node that processed every block to the archive header; the remaining blocks arrive as Block messages and the tip state equals the serving node's; no node thread panics");
+			sp.real_components.extend(net_real());
+			sp.required_probes.push("sync_completed_over_the_wire".to_string());
+			sp.required_probes.push("netsim_runs".to_string());
 			sp.case_timeout_s = 1500;
 			Some(sp)
 		}
